@@ -41,13 +41,29 @@ def split_runs(path):
             names.append(line[2:])
         elif line.startswith('G '):
             codec = line[2:]
+        elif line.startswith('T '):
+            stats.append('boundary ' + line[2:])
         elif line.startswith('# '):
             stats.append(line[2:])
     return runs, names, codec, stats
 
 
+HEX16 = re.compile(r'[0-9a-f]{16}')
+
+
+def adjacent_doubles_only(a, b):
+    """the two lines are identical except for doubles that differ by one unit in the last place"""
+    if HEX16.sub('#', a) != HEX16.sub('#', b):
+        return False
+    ha, hb = HEX16.findall(a), HEX16.findall(b)
+    d = [(x, y) for x, y in zip(ha, hb) if x != y]
+    return bool(d) and all(abs(int(x, 16) - int(y, 16)) == 1 for x, y in d)
+
+
 def classify(run, a, b):
     """signature of a difference between what the reader reported (a) and what was fed (b)"""
+    if run['run'].split()[1] == '0' and a and b and adjacent_doubles_only(nz(a), nz(b)):
+        return 'codec:boundary-tie-round-trip'
     ta = a.split()[0] if a else 'missing'
     tb = b.split()[0] if b else 'missing'
     fmt = 'text' if run['run'].split()[1] == '0' else 'binary'
@@ -176,7 +192,7 @@ def run(ck):
             p = subprocess.run([exe, ck.tier, str(ck.seed), scratch], stdout=f, stderr=subprocess.PIPE, text=True, timeout=3000)
         main_rc, main_err = p.returncode, p.stderr[-2000:]
         probes = {}
-        for pr in ('probe-intmin', 'probe-call0'):
+        for pr in ('probe-intmin', 'probe-call0', 'probe-tie'):
             po = os.path.join(BUILD, 'c03.%s.out' % pr)
             with open(po, 'w') as f:
                 q = subprocess.run([exe, ck.tier, str(ck.seed), scratch, pr], stdout=f, stderr=subprocess.PIPE, text=True, timeout=600)
@@ -281,6 +297,8 @@ def run(ck):
             if 'quirkfree=false' in mrun['head']:
                 n_quirk += 1
             dm = first_diff(I, mrun['L'])
+            if dm and d and classify(r, d[1], d[2]) == 'codec:boundary-tie-round-trip' and adjacent_doubles_only(nz(dm[1]), nz(dm[2])):
+                dm = None     # the model runs with the exact-codec hypothesis; this run falsifies the hypothesis, reported by the oracle
             if dm:
                 corr_bad.setdefault('line:' + (dm[1].split() or ['?'])[0], []).append((r, dm, mrun['head']))
             if mrun['agree'] == 'false' and 'wf=true' in mrun['head']:
@@ -352,6 +370,30 @@ def run(ck):
         if m and int(m.group(2)) > 0:
             ck.add_violation('codec:g_fmt-strtod-not-exact', 'g_fmt -> strtod does not return the same double: %s (%s of %s)' %
                              (m.group(3), m.group(2), m.group(1)), {'first': m.group(3)})
+    # constructed boundary cases of the number codec
+    bline = next((s for s in stats if s.startswith('boundary ')), None)
+    ck.cov['number_codec_boundary_TEST_not_proof'] = bline
+    if bline:
+        m = re.match(r'boundary tested=(\d+) bad=(\d+) ties=(\d+) first=(.*)', bline)
+        if m and int(m.group(2)) > 0:
+            f = m.group(4).split()
+            adj = len(f) >= 3 and abs(int(f[0], 16) - int(f[2], 16)) == 1
+            ck.add_violation('codec:boundary-tie-round-trip' if adj else 'codec:g_fmt-strtod-not-exact',
+                             'g_fmt prints a decimal on/beyond the rounding boundary x + ulp/2 and strtod reads back the neighbouring double: '
+                             'x=%s printed "%s" read back %s (%s of %s constructed boundary cases, %s of them exact ties)' %
+                             (f[0], f[1] if len(f) > 1 else '?', f[2] if len(f) > 2 else '?', m.group(2), m.group(1), m.group(3)),
+                             {'double_bits': f[0], 'printed': f[1] if len(f) > 1 else None, 'read_back_bits': f[2] if len(f) > 2 else None,
+                              'fixed_example': '4611686018999999488 (43d0000000088857) -> "4.611686019e+18" -> 4611686019000000512 (43d0000000088858)',
+                              'how': 'DAVID_GAY_GFMT::g_fmt(buf, x, 0) then strtod(buf); or h_nlw2 quick 1 <dir> probe-tie (whole file through WriteNLFile/ReadNLFile)'})
+    rcp, errp, po = probes['probe-tie']
+    pruns, _, _, _ = split_runs(po)
+    for r in pruns:
+        d = first_diff([nz(l) for l in r['I']], [nz(l) for l in r['X']])
+        if d:
+            ck.add_violation(classify(r, d[1], d[2]), 'the double 4611686018999999488 written by WriteNLFile (text) is read back as '
+                             '4611686019000000512: fed "%s", reader reported "%s"' % (d[2], d[1]), replay_obj(r, {'probe': 'probe-tie'}))
+    if rcp != 0:
+        ck.add_violation('codec:probe-tie-abort', 'probe-tie aborted: %s' % errp[-400:], {'stderr': errp})
     # probes (each in its own process)
     rcp, errp, po = probes['probe-intmin']
     pruns, _, _, _ = split_runs(po)
@@ -401,8 +443,8 @@ def run(ck):
                              found_input=False)
     ck.level = 'proof'
     ck.assumptions += [
-        'number codec (TESTED, not proved): strtod(g_fmt(x)) == x bit for bit except -0 -> +0, for every finite double and +-Inf; '
-        'tested on %s' % (codec or 'n/a'),
+        'number codec (TESTED, not proved, and KNOWN TO FAIL at rounding-boundary cases, open finding codec:boundary-tie-round-trip): '
+        'strtod(g_fmt(x)) == x bit for bit except -0 -> +0; random stream %s; constructed boundary stream %s' % (codec or 'n/a', bline or 'n/a'),
         'token-level model: one token = one %-item of an apr() format = one Read* call; the byte-level text lexer '
         '(decimal integers, names, Hollerith strings, comments) is validated by the correspondence only',
         'feeder contract = wellFormed (ModelSpec.lean): header counts = sizes of what is fed, indices in range, NL expression grammar, '
